@@ -793,6 +793,12 @@ raise ValueError."""
                 value = str(symbol.const_int % 2 ** 16)
             elif unaliased == ast.TYPE_UINT8:
                 value = str(symbol.const_int % 2 ** 8)
+            elif unaliased == ast.TYPE_UINT:
+                value = str(symbol.const_int % 2 ** 32)
+            elif unaliased == ast.TYPE_UNICHAR:
+                value = str(symbol.const_int % 2 ** 32)
+            elif unaliased == ast.TYPE_USHORT:
+                value = str(symbol.const_int % 2 ** 16)
             else:
                 value = str(symbol.const_int)
         elif symbol.const_boolean is not None:
